@@ -88,7 +88,10 @@ CooClauses(e) ==
            THEN [LocalMatchesElemental |->
                    LocalMatchesElemental(e.local, BilLocal(e.F, e.Bu, e.Bv, [fld |-> <<>>, prm |-> <<>>]), e.Bv.nb, e.Bu.nb)]
            ELSE <<>>)
-       @@ (IF e.hasinv = 1 THEN [InverseIsLocalInverse |-> InverseIsLocalInverse(e.local, e.linv, e.sl, e.si) /\ e.invidx = e.coo.idx] ELSE <<>>)
+       @@ (IF e.hasinv = 1 THEN [InverseIsLocalInverse |-> InverseIsLocalInverse(e.local, e.linv, e.sl, e.si)
+                                                           \* the inverse lives on the same index pairs (their order is not judged)
+                                                           /\ Len(e.invidx) = 2 /\ Len(e.invidx[1]) = Len(e.invidx[2])
+                                                           /\ {<<e.invidx[1][n], e.invidx[2][n]>> : n \in DOMAIN e.invidx[1]} = CooPositions(e.coo)] ELSE <<>>)
        @@ (IF e.hasfacet = 1 THEN [FacetLocalSumsToCells |-> FacetLocalSumsToCells(e.local, e.find, e.t2f, e.cellsum)] ELSE <<>>)
 
 BmatClauses(e) ==
